@@ -506,7 +506,7 @@ def run(only=None):
         s.merge(acc)
     s.done()
     # header fields the generator copies nowhere else: addressing (group / individual, the two link-layer ids)
-    addr = [(g, d, a) for g in (False, True) for d, a in ((2305678, 2301234), (1, 0xFFFFFF), (0xFFFFFF, 1), (5, 5), (0, 0))]
+    addr = [(g, d, a) for g in (False, True) for d, a in ((2305678, 2301234), (1, 0xFFFFFE), (0xFFFFFF, 1), (5, 5), (0xFFFFFE, 0x800000))]  # 24-bit ids; 0 (the null address) is left out
     acfgs = []
     for r, c in [(r, c) for r in ("r12", "r34", "r1") for c in (False, True)]:
         opb, opl = OCTETS[(r, c)]
